@@ -505,7 +505,9 @@ def next_psuedo_matches(state: TokenizerState) -> TokenInfo | None:
         token_type = Token.OP
     elif match.lastgroup == "End":  # // continuation
         state.continued = True
-        return None
+        if not token:
+            return None
+        token_type = Token.WS  # kept as blank text so that macros receive their arguments verbatim
     else:
         raise TokenError(f"Bad token: {token!r} at line {state.lnum}", spos)
 
